@@ -137,7 +137,7 @@ func RunPolicy(sc *Scenario, params map[string]int, prefix []int, policy func(i 
 		},
 		MaxSteps: sc.MaxSteps,
 		Trace:    trace,
-		Fine:     sc.Fine,
+		Fine:     sc.Fine || forceFine,
 		Debug:    debugIDs,
 	}
 	var s *vsched.Sched
@@ -152,6 +152,13 @@ func RunPolicy(sc *Scenario, params map[string]int, prefix []int, policy func(i 
 var debugIDs bool
 var slowLog = os.Getenv("VERIF_SLOWLOG") != ""
 
+// forceFine (VERIF_FINE=1, experiments and the fine-mode sweep of the thorough tier): every scenario runs with the
+// baselibrary primitives' own locks and atomics as decision points.
+var forceFine = os.Getenv("VERIF_FINE") != ""
+
+func SetForceFine(on bool) { forceFine = on }
+func ForceFine() bool      { return forceFine }
+
 func SetDebug(on bool) { debugIDs = on }
 
 type Violation struct {
@@ -160,6 +167,7 @@ type Violation struct {
 	Scn     string         `json:"scenario"`
 	Params  map[string]int `json:"params"`
 	Choices []int          `json:"choices"`
+	Fine    bool           `json:"fine,omitempty"` // found in the fine-mode sweep of a scenario that is not fine by itself
 }
 
 type Stats struct {
@@ -173,6 +181,7 @@ type Stats struct {
 	ViolationsN int64
 	Horizon     int64
 	Complete    bool
+	Layers      int // number of complete layers: every execution with < Layers paid deviations was visited
 	sigCount    map[string]int
 	Nondet      []string
 	DistinctEx  map[uint64]struct{}
@@ -189,7 +198,8 @@ type Explorer struct {
 	Deadline time.Time
 	MaxExec  int64
 	St       *Stats
-	counter  int64
+	layer    int  // current layer of the iterative deviation bounding
+	more     bool // a successor beyond the current layer exists
 	stop     bool
 }
 
@@ -203,7 +213,11 @@ func NewStats() *Stats {
 	return &Stats{Outcomes: map[string]int64{}, sigCount: map[string]int{}, Complete: true, DistinctEx: map[uint64]struct{}{}}
 }
 
-// Explore enumerates every execution within the bounds (this shard's part of it).
+// Explore enumerates every execution within the bounds (this shard's part of it), by iterative deviation bounding:
+// layer k visits exactly the executions with k paid deviations (preemptions + environment deviations, plus free
+// switches where those are bounded); layer k+1 starts when layer k is complete.  A run that hits its deadline has
+// therefore covered ALL executions up to St.Layers-1 paid deviations and part of the next layer.  Upper levels are
+// re-executed in every layer (stateless search); the space grows fast enough with k that this costs a few percent.
 func (e *Explorer) Explore() {
 	if e.St == nil {
 		e.St = NewStats()
@@ -211,16 +225,48 @@ func (e *Explorer) Explore() {
 	if e.NShards <= 0 {
 		e.NShards = 1
 	}
-	e.explore(nil, cost{}, 0)
-	if e.stop {
-		e.St.Complete = false
+	for e.layer = 0; ; e.layer++ {
+		e.more = false
+		e.explore(nil, cost{}, 0)
+		if e.stop {
+			e.St.Complete = false
+			return
+		}
+		e.St.Layers = e.layer + 1
+		if !e.more {
+			return
+		}
 	}
 }
 
-func (e *Explorer) mine() bool {
-	k := e.counter
-	e.counter++
-	return int(k%int64(e.NShards)) == e.Shard
+// paid: the deviations that count against a finite bound.
+func (e *Explorer) paid(c cost) int {
+	n := 0
+	if e.B.P >= 0 {
+		n += c.p
+	}
+	if e.B.E >= 0 {
+		n += c.e
+	}
+	if e.B.F >= 0 {
+		n += c.f
+	}
+	return n
+}
+
+// mine: ownership of a node by the hash of its choice prefix (the same in every layer and in every shard).
+func (e *Explorer) mine(prefix []int) bool {
+	if e.NShards <= 1 {
+		return true
+	}
+	h := uint64(14695981039346656037)
+	for i, c := range prefix {
+		if c != 0 {
+			h = (h ^ uint64(i)*2654435761 ^ uint64(c)<<40) * 1099511628211
+		}
+	}
+	h ^= h >> 29
+	return int(h%uint64(e.NShards)) == e.Shard
 }
 
 func (e *Explorer) explore(prefix []int, used cost, depth int) {
@@ -229,7 +275,7 @@ func (e *Explorer) explore(prefix []int, used cost, depth int) {
 	}
 	owner := true
 	if depth <= e.Split {
-		owner = e.mine()
+		owner = e.mine(prefix)
 		if depth == e.Split && !owner {
 			return // another shard owns this subtree
 		}
@@ -245,7 +291,7 @@ func (e *Explorer) explore(prefix []int, used cost, depth int) {
 	if d := time.Since(t0); d > 50*time.Millisecond && slowLog {
 		fmt.Printf("SLOW run %v steps=%d points=%d horizon=%v deadlock=%v prefixlen=%d depth=%d\n", d, x.Steps, len(x.Points), x.Horizon, x.Deadlock, len(prefix), depth)
 	}
-	if owner {
+	if owner && e.paid(used) == e.layer {
 		e.record(x)
 	}
 	for i := len(prefix); i < len(x.Points); i++ {
@@ -261,6 +307,10 @@ func (e *Explorer) explore(prefix []int, used cost, depth int) {
 				c.f++
 			}
 			if !e.within(c) {
+				continue
+			}
+			if e.paid(c) > e.layer {
+				e.more = true // belongs to a later layer
 				continue
 			}
 			np := make([]int, i+1)
@@ -321,7 +371,7 @@ func (e *Explorer) record(x *Exec) {
 				st.Nondet = append(st.Nondet, fmt.Sprintf("scenario %s: finding %q did not reproduce on replay %d of choices %v", e.Sc.Name, f.Sig, k+1, x.Choices))
 			}
 		}
-		st.Violations = append(st.Violations, Violation{Sig: f.Sig, Desc: f.Desc, Scn: e.Sc.Name, Params: e.Params, Choices: append([]int{}, x.Choices...)})
+		st.Violations = append(st.Violations, Violation{Sig: f.Sig, Desc: f.Desc, Scn: e.Sc.Name, Params: e.Params, Choices: append([]int{}, x.Choices...), Fine: forceFine && !e.Sc.Fine})
 	}
 }
 
